@@ -172,19 +172,31 @@ func genSession14(c *Chooser) Session {
 	if iv.yaml && c.Chance(1, 12) {
 		g.YAMLFloats = true
 	}
+	if c.Chance(1, 120) {
+		g.Huge = true
+	}
 	docs := lineage(c, g, 2)
 	a, b := docs[0], docs[1]
-	if c.Chance(1, 10) {
+	if g.Huge && b.K == 'o' {
+		// the whole large sub-document goes away (or becomes a number): one
+		// very long "- [...]" line in the native format
+		if c.Chance(1, 2) {
+			b.del("huge")
+		} else {
+			b.set("huge", vn(1))
+		}
+	}
+	if c.Chance(1, 10) && !g.Huge {
 		b = a.clone() // equal inputs: exit status 0
 	}
-	if iv.arrays != "list" && !(iv.arrays == "setkeys" && iv.v1) && c.Chance(1, 5) {
+	if !g.Huge && iv.arrays != "list" && !(iv.arrays == "setkeys" && iv.v1) && c.Chance(1, 5) {
 		// the same document with its arrays reordered: no difference under the flags
 		b = shuffleArrays(c, a, iv.arrays == "set")
 		if c.Chance(1, 2) {
 			b = edit(c, g, b)
 		}
 	}
-	if iv.precision != 0 && c.Chance(2, 3) {
+	if !g.Huge && iv.precision != 0 && c.Chance(2, 3) {
 		b = perturb(c, a, iv.precision) // differences around the tolerance
 	}
 	if c.Chance(1, 40) {
